@@ -101,9 +101,9 @@ CHECKS = {
   "ref": "DESIGN.md 7/C17",
  },
  "C01": {
-  "text": "Lean theorem compile_correct: for every rule tree (and/or/not/if/then/else/nested/atLeast/atMost/exactly of any depth and width) and every environment in which each atom's negated twin is its complement, the failure-DNF produced by the transliterated dispatch/genAnd/genOr/expandBranches fires exactly where the formula is classically false; corollaries: operand order, flattening, double negation, De Morgan, contraposition, if/then/else as two implications, target selection (reported_iff), cardinality atoms classical on every graph (graphEnv_classical). Tied to the Go translator by whole-truth-table validations of random formulas through the real pkg.Validate, plus random-graph streams for nested/quantified rules and every atom kind.",
+  "text": "Lean theorem compile_correct: for every rule tree (and/or/not/if/then/else/nested/atLeast/atMost/exactly of any depth and width) and every environment in which each atom's negated twin is its complement, the failure-DNF produced by the transliterated dispatch/genAnd/genOr/expandBranches fires exactly where the formula is classically false; corollaries: operand order, flattening, double negation, De Morgan, contraposition, if/then/else as two implications, target selection (reported_iff), cardinality atoms classical on every graph (graphEnv_classical). Tied to the Go translator by whole-truth-table validations of random formulas through the real pkg.Validate, plus random-graph streams for nested/quantified rules, scopes (several quantified constraints in every pair of connective contexts) and every atom kind. The front-end is linked in Lean end to end (Acv/Model/FrontEnd.lean): YAML node tree -> profile-parser model -> path PEG model -> IRI expander model -> rule tables (toRule), with a readable specification `sat` of what a parsed rule means on a graph; sat_iff_holds, frontEnd_sound and tree_reported_iff prove that the translator model reports node n for validation v of the profile TREE iff n is an instance of v's target class and not sat; toRule_negate (negation push-down commutes), frontEnd_key_order / verdicts_key_order (key order of any mapping does not change the verdicts on any graph). Every stream is run a second time with the model side starting from the YAML tree of the profile text.",
   "note": "Trusted: Lean kernel; the transliteration of the generator and of Negate(); OPA's evaluation of each per-constraint snippet (modelled by Atom.fails, tied by the atoms stream); yaml.v3; json-gold on flat documents. Hypotheses kept visible: Proper (no empty and/or body) and Classical (per-value atoms are complementary only on single-valued properties).",
-  "technique": "Lean 4 proof by mutual functional induction over the well-founded translator model + differential correspondence (real pkg.Validate vs compiled Lean driver) on truth-table graphs",
+  "technique": "Lean 4 proof by mutual functional induction over the well-founded translator model, composed with a proved front-end model from the YAML tree + differential correspondence (real pkg.Validate vs compiled Lean driver, from abstract cases and from the YAML tree) on truth-table graphs",
   "ref": "DESIGN.md 7/C01",
  },
  "C02": {
